@@ -60,6 +60,8 @@ HarnessAggLift == IsAgg => /\ \A i \in APos : (ev.c[i] % ev.p = ev.dl[i]) /\ (ev
                            /\ (ISum(ev.c, 1) = 0 <=> ISum(ev.dl, 1) % ev.p = 0)
 HarnessAggPattern == IsAgg => /\ (ev.pattern \in CancelNames <=> ARealCancel)
                               /\ (ev.pattern = "valid" <=> \A i \in APos : AStructOK(i))
+(* step = 0: a one-shot check; step k > 0: the k-th verification of the same (re-keyed) signer scheme objects *)
+HarnessAggStep == IsAgg => (ev.step >= 0 /\ (ev.via = "rekey" <=> ev.step > 0))
 (* the toy group is a homomorphic image: whatever the real equation accepts, the model's equation accepts *)
 HarnessAggModelImage == IsAgg => (ev.agg => AToyAgg)
 
